@@ -183,7 +183,21 @@ def step (_ : Unit) (ln : Line) : Unit × String :=
     let s := Spec.rotate R (g.m - f)
     out (fmtE (fun (r : List E × Nat) => s!"r={r.2} a={fmtList r.1}") (rotate a f g.m l))
       s!"r={f + s.2} a={fmtList (splice a f l s.1)}"
-  | "reverse" => arr (if g.it == "ptr" then reverseRA a f l else reverseBidi a f l) R.reverse
+  | "reverse" =>
+    if g.it == "rptr" then
+      -- the range seen through reverse_iterators: the random-access loop runs on the mirrored sequence
+      let n := a.length
+      arr ((reverseRA a.reverse (n - l) (n - f)).map List.reverse) R.reverse
+    else arr (if g.it == "ptr" then reverseRA a f l else reverseBidi a f l) R.reverse
+  | "rit_rel" =>
+    -- reverse_iterator relations over base positions i, j ([reverse.iter.cmp]): x < y iff x.base() > y.base()
+    match ln.nat? "i", ln.nat? "j" with
+    | some i, some j =>
+      let b := fun (c : Bool) => if c then "1" else "0"
+      let r := b (i == j) ++ b (i != j) ++ b (decide (i > j)) ++ b (decide (i ≥ j)) ++ b (decide (i < j)) ++ b (decide (i ≤ j))
+        ++ s!" d={(i : Int) - (j : Int)}"
+      out r r
+    | _, _ => bad
   | "swap_ranges" =>
     let n := l - f
     out (fmtE (fun (r : List E × List E × Nat) => s!"r={r.2.2} a={fmtList r.1} b={fmtList r.2.1}") (swapRanges a f l b 0 h))
